@@ -228,3 +228,44 @@ package app
 //@   ensures [C18:failed_mutation_puts_previous_content_back] result2 != nil && renames == old(renames) + 2 ==> renamedContent == local(data)
 //@   ensures [C18:at_most_forward_and_rollback_write] renames >= old(renames) && renames <= old(renames) + 2
 //@   ensures [C18:success_means_written_once_and_reloaded] result2 == nil && result0.Applied ==> renames == old(renames) + 1 && renamedContent == local(formatted)
+
+// ---- C15/C12/C07: per-route answers the admin and ingress handlers are wired with come from the current route table ----
+
+//@ spec
+//@ pred noRouteBefore(s *runtimeState, route string, i int) := forall j int :: 0 <= j && j < i ==> s.routes[j].Path != route
+//@ pred firstRouteAt(s *runtimeState, route string, i int) := 0 <= i && i < len(s.routes) && s.routes[i].Path == route && noRouteBefore(s, route, i)
+
+//@ func compiledRouteTargets
+//@   loop 1 invariant [clean_subset] rangeindex < len(rt.Deliveries) && forall k int :: 0 <= k && k < len(targets) ==> targets[k] != "" && exists j int :: 0 <= j && j <= rangeindex && targets[k] == trim(rt.Deliveries[j].URL)
+//@   ensures [C15:pull_route_has_the_pull_target] rt.Pull != nil ==> len(result) == 1 && result[0] == "pull"
+//@   ensures [C15:deliver_targets_are_the_configured_urls] rt.Pull == nil ==> forall k int :: 0 <= k && k < len(result) ==> result[k] != "" && exists j int :: 0 <= j && j < len(rt.Deliveries) && result[k] == trim(rt.Deliveries[j].URL)
+
+//@ func (*runtimeState).limitsFor
+//@   requires s != nil
+//@   loop 1 invariant [none_before] rangeindex < len(s.routes) && noRouteBefore(s, route, rangeindex + 1)
+//@   ensures [C15:limits_of_the_first_route_with_that_path] (firstRouteAt(s, route, rangeindex1) && result0 == s.routes[rangeindex1].MaxBodyBytes && result1 == s.routes[rangeindex1].MaxHeaderBytes) || (noRouteBefore(s, route, len(s.routes)) && result0 == 0 && result1 == 0)
+
+//@ func (*runtimeState).modeForRoute
+//@   requires s != nil
+//@   loop 1 invariant [none_before] rangeindex < len(s.routes) && noRouteBefore(s, route, rangeindex + 1)
+//@   ensures [C15:mode_of_the_first_route_with_that_path] (firstRouteAt(s, route, rangeindex1) && result == ite(s.routes[rangeindex1].Pull != nil, "pull", ite(len(s.routes[rangeindex1].Deliveries) > 0, "deliver", ""))) || (noRouteBefore(s, route, len(s.routes)) && result == "")
+
+//@ func (*runtimeState).publishEnabledForRoute
+//@   requires s != nil
+//@   loop 1 invariant [none_before] rangeindex < len(s.routes) && noRouteBefore(s, route, rangeindex + 1)
+//@   ensures [C15:publish_flag_of_the_first_route_with_that_path] (firstRouteAt(s, route, rangeindex1) && result == s.routes[rangeindex1].Publish) || (noRouteBefore(s, route, len(s.routes)) && result)
+
+//@ func (*runtimeState).publishDirectEnabledForRoute
+//@   requires s != nil
+//@   loop 1 invariant [none_before] rangeindex < len(s.routes) && noRouteBefore(s, route, rangeindex + 1)
+//@   ensures [C15:direct_flag_of_the_first_route_with_that_path] (firstRouteAt(s, route, rangeindex1) && result == s.routes[rangeindex1].PublishDirect) || (noRouteBefore(s, route, len(s.routes)) && result)
+
+//@ func (*runtimeState).publishManagedEnabledForRoute
+//@   requires s != nil
+//@   loop 1 invariant [none_before] rangeindex < len(s.routes) && noRouteBefore(s, route, rangeindex + 1)
+//@   ensures [C15:managed_flag_of_the_first_route_with_that_path] (firstRouteAt(s, route, rangeindex1) && result == s.routes[rangeindex1].PublishManaged) || (noRouteBefore(s, route, len(s.routes)) && result)
+
+//@ func (*runtimeState).targetsForRoute
+//@   requires s != nil
+//@   loop 1 invariant [none_before] rangeindex < len(s.routes) && noRouteBefore(s, route, rangeindex + 1)
+//@   ensures [C15:targets_of_the_first_route_with_that_path] (firstRouteAt(s, route, rangeindex1) && (s.routes[rangeindex1].Pull != nil ==> len(result) == 1 && result[0] == "pull") && (s.routes[rangeindex1].Pull == nil ==> forall k int :: 0 <= k && k < len(result) ==> result[k] != "" && exists j int :: 0 <= j && j < len(s.routes[rangeindex1].Deliveries) && result[k] == trim(s.routes[rangeindex1].Deliveries[j].URL))) || (noRouteBefore(s, route, len(s.routes)) && len(result) == 0)
